@@ -21,6 +21,14 @@ def convention(ctx, cls_name):
     m = ctx.model
     f = m.method(m.cls(MOD, cls_name), "apply_balance")
     p = f.params[1]
+    side = _side_of(f, p)
+    ctx.need(side is not None, f"{f.qname}: application `img @ self.balance_scaling` not found")
+    return side, f
+
+
+def _side_of(f, p):
+    """'left' when the method computes p @ A (row vectors), 'right' for A @ p (column vectors), A = self.balance_scaling; the einsum
+    spelling of either is read from its subscripts.  None when neither form is present."""
     side = None
     for n in ast.walk(f.node):
         if isinstance(n, ast.BinOp) and isinstance(n.op, ast.MatMult):
@@ -28,8 +36,59 @@ def convention(ctx, cls_name):
                 side = "left"
             elif norm(n.right) == p and norm(n.left) == "self.balance_scaling":
                 side = "right"
-    ctx.need(side is not None, f"{f.qname}: application `img @ self.balance_scaling` not found")
-    return side, f
+        elif isinstance(n, ast.Call) and norm(n.func) == "np.einsum" and len(n.args) == 3 and isinstance(n.args[0], ast.Constant) and isinstance(n.args[0].value, str):
+            spec = n.args[0].value.replace(" ", "")
+            if "->" not in spec or spec.count(",") != 1:
+                continue
+            ins, out = spec.split("->")
+            s0, s1 = ins.split(",")
+            ops = {norm(n.args[1]): s0, norm(n.args[2]): s1}
+            if set(ops) != {p, "self.balance_scaling"}:
+                continue
+            a, x = ops["self.balance_scaling"], ops[p].replace("...", "")
+            o = out.replace("...", "")
+            if len(a) == 2 and len(x) == 1 and len(o) == 1 and x in a and o in a and x != o:
+                # out_o = sum_x A[..] img_x: A indexed (x, o) is img @ A; A indexed (o, x) is A @ img
+                side = "left" if a == x + o else "right"
+    return side
+
+
+def _fold_accumulate(f, mode):
+    """Fold AdaptiveBalance.find_balance(src, dst, mode) with symbolic previous balance (A_prev, b_prev) and a stage object whose fit
+    yields (A_new[, b_new]): non-commutative normal forms (A, b) of the accumulated balance, or None outside the folding language."""
+    from ..fold import Folder, Obj, Opaque, Raised, Refuse
+    from ..terms import nf
+
+    def ctor(affine):
+        def make(a, k):
+            fields = {"balance_scaling": Opaque("m", "A_new"), "find_balance": lambda a2, k2: None}
+            if affine:
+                fields["balance_translation"] = Opaque("v", "b_new")
+            return Obj("stage", fields)
+        return make
+    fo = Folder(symbolic=True)
+    fo.func_stack.append(f.node)
+    fo.fold_all_methods = True
+    fo.overrides = {"WhiteBalance": ctor(False), "ColorBalance": ctor(False), "AffineBalance": ctor(True)}
+    so = Obj("self", {"__class__": "AdaptiveBalance", "balance_scaling": Opaque("m", "A_prev"), "balance_translation": Opaque("v", "b_prev")})
+    try:
+        fo.call(f.node, [so, Opaque("arr", "SRC"), Opaque("arr", "DST"), mode])
+    except (Refuse, Raised):
+        return None
+
+    def symbolize(n):
+        t = norm(n)
+        if t in ("A_prev", "b_prev", "A_new", "b_new"):
+            return t
+        if isinstance(n, ast.Call) and norm(n.func) in ("np.zeros", "np.zeros_like"):
+            return NC.const(0)
+        return None
+    try:
+        A = ToNC(symbolize=symbolize)(ast.parse(nf(so.fields["balance_scaling"]), mode="eval").body)
+        b = ToNC(symbolize=symbolize)(ast.parse(nf(so.fields["balance_translation"]), mode="eval").body)
+    except Exception:
+        return None
+    return A, b
 
 
 def rule_a(ctx):
@@ -40,6 +99,15 @@ def rule_a(ctx):
     m = ctx.model
     ctx.consult(MOD)
     side, ap = convention(ctx, "AdaptiveBalance")
+    # every apply_balance of the module (the base class's serves ColorBalance / WhiteBalance) uses that same convention: the objectives of
+    # all find_balance methods are written for one
+    for k in m.mod(MOD).classes.values():
+        ab = k.methods.get("apply_balance")
+        if ab is None or len(ab.params) < 2 or any(isinstance(x, ast.Raise) for x in ab.node.body):
+            continue
+        s_k = _side_of(ab, ab.params[1])
+        ctx.ob(R, ab.qname, f"{k.name}.apply_balance applies the scaling on the same side as AdaptiveBalance.apply_balance ({side})", s_k == side,
+               f"applies it as the {s_k} operand convention" if s_k else "", ab.node, evidence=s_k is not None)
     f = m.method(m.cls(MOD, "AdaptiveBalance"), "find_balance")
     ctx.instance(R)
     # the stage object
@@ -47,6 +115,21 @@ def rule_a(ctx):
     for s in ast.walk(f.node):
         if isinstance(s, ast.Assign) and isinstance(s.value, ast.Call) and norm(s.value.func) in ("WhiteBalance", "ColorBalance", "AffineBalance") and isinstance(s.targets[0], ast.Name):
             stage = s.targets[0].id
+    if stage is None:
+        # restructured: decided on the folded method, per mode
+        sem = {mode: _fold_accumulate(f, mode) for mode in ("diagonal", "linear", "affine")}
+        if all(v is not None for v in sem.values()):
+            Ap, bp, An, bn = NC.sym("A_prev"), NC.sym("b_prev"), NC.sym("A_new"), NC.sym("b_new")
+            want_A = Ap @ An if side == "left" else An @ Ap
+            want_b_lin = bp @ An if side == "left" else An @ bp
+            for mode, (A, b) in sem.items():
+                ctx.ob(R, f.qname, f"{mode} stage: accumulated scaling is {'A_prev @ A_new' if side == 'left' else 'A_new @ A_prev'}", A == want_A,
+                       f"normal form {A!r}; apply_balance uses the image as the {side} operand, so applying the stages one after the other gives {want_A!r}", f.node, evidence=True)
+                wb = want_b_lin + bn if mode == "affine" else want_b_lin
+                ctx.ob(R, f.qname, f"{mode} stage: accumulated translation is {wb!r}", b == wb,
+                       f"normal form {b!r}; sequential application gives {wb!r} (the accumulated translation must be carried through the new scaling for every mode)", f.node, evidence=True)
+            ctx.floor(R, 1)
+            return side
     ctx.need(stage is not None, "AdaptiveBalance.find_balance: stage balance object not found")
 
     def sym(n):
